@@ -624,6 +624,34 @@ class KVEngine:
             ctx.fail("query-mismatch", "sequence", "span/mult of a sequence raised %s" % type(e).__name__)
         if [M.Fr(kv[i]) for i in range(len(L))] != L:
             ctx.fail("query-mismatch", "indexing", "kv[i] disagrees with iteration")
+        # == must agree with the element list: equal to a copy of its own elements, different from a vector with the
+        # same degree, npts and distinct knots but another multiplicity pattern (one unit moved between interior knots)
+        ctx.oracle("equality")
+        try:
+            same = (kv == list(raw))
+            mults = M.kv_mults(L)
+            other = None
+            for i in range(1, len(mults) - 1):
+                for j in range(1, len(mults) - 1):
+                    if i != j and mults[i][1] >= 2 and mults[j][1] <= p and other is None:
+                        pattern = [m for _, m in mults]
+                        pattern[i] -= 1
+                        pattern[j] += 1
+                        other = []
+                        seen_first = {}
+                        for x in raw:
+                            seen_first.setdefault(M.Fr(x), x)
+                        for (k, _), m in zip(mults, pattern):
+                            other += [seen_first[k]] * m
+            differs = None if other is None else (kv == other)
+        except Exception as e:  # noqa
+            ctx.fail("query-mismatch", "equality-raises", "comparing a KnotVector with a list raised %s" % type(e).__name__)
+            return L
+        if same is not True:
+            ctx.fail("query-mismatch", "equality", "kv == list(kv) is %r" % (same,))
+        if differs is not None and differs is not False:
+            ctx.fail("query-mismatch", "equality", "kv == (same knots, other multiplicities) is %r: %s vs %s"
+                     % (differs, [m for _, m in mults], "one unit of multiplicity moved"))
         return L
 
     # ----- one run -------------------------------------------------------
